@@ -792,6 +792,40 @@ impl St {
                     }
                 })
             }
+            // `rreadexact R N`: read_exact of N bytes (on the async side a large N takes several polls over ONE buffer)
+            "rreadexact" => {
+                need(a, 2)?;
+                let id = parse_id(a[0], 'R')?;
+                let n = parse_usize(a[1])?;
+                if n > (64 << 20) {
+                    return Err(Bad::Arg);
+                }
+                with_handle(&mut self.readers, &id, |h| {
+                    let mut buf = vec![0u8; n];
+                    let r = match h {
+                        RK::S(r) => r.read_exact(&mut buf).map(|_| ()),
+                        #[cfg(any(feature = "rt-async-std", feature = "rt-tokio"))]
+                        RK::A(r) => rt::block_on(async { r.read_exact(&mut buf).await.map(|_| ()) }),
+                    };
+                    match r {
+                        Ok(()) => format!("ok {}", hex_tok(&buf)),
+                        Err(e) => stdio_err(&e),
+                    }
+                })
+            }
+            // `wclose W`: finish the AsyncWrite protocol (`close()` on async-std, `shutdown()` on tokio) WITHOUT
+            // committing; sync writers have no such call (answered `ok` after a flush)
+            "wclose" => {
+                need(a, 1)?;
+                let id = parse_id(a[0], 'W')?;
+                with_handle(&mut self.writers, &id, |h| match &mut h.k {
+                    WK::S(w) => stdio_unit(w.flush()),
+                    #[cfg(feature = "rt-async-std")]
+                    WK::A(w) => stdio_unit(rt::block_on(async { futures::AsyncWriteExt::close(w).await })),
+                    #[cfg(feature = "rt-tokio")]
+                    WK::A(w) => stdio_unit(rt::block_on(async { tokio::io::AsyncWriteExt::shutdown(w).await })),
+                })
+            }
             // `rreadall R [PREFIX]`: read_to_end into a vector that already holds PREFIX (a frame header, the
             // previous entry); the answer is what was appended
             "rreadall" => {
